@@ -123,9 +123,19 @@ let cmd_P arg =
       | Ok ((_, q1), q2) -> add ("plc=" ^ Digest.to_hex (Digest.string (show_core q1 ^ "|" ^ show_core q2)))
       | _ -> add "plc=NONE");
      let cls = geto (to_clauses c) in add ("cls=" ^ show_clauses cls);
+     (match to_clauses_p c with
+      | Some ((_, q1), q2) -> add ("pll=" ^ Digest.to_hex (Digest.string (show_core q1 ^ "|" ^ show_core q2)))
+      | None -> add "pll=NONE");
      let (v, s) = show_resolution cls in add s;
      let vs = match v with None -> "N" | Some true -> "F" | Some false -> "T" in
      add ("verdict=" ^ vs);
+     (* conclusions of the proofs returned by start_resolution_algorithm and prove_tautology (glue model,
+        helper conclusions taken from their specs) *)
+     let show_pf = function
+       | Ok (Some (b, c)) -> (if b then "T" else "F") ^ show_core c
+       | Ok None -> "N" | Err -> "ERR" | Fuel -> "FUEL" in
+     add ("plf=" ^ Digest.to_hex (Digest.string (show_pf (start_resolution_p spec_pieces !no_shadow !fuel cls) ^ "|" ^
+                                                 show_pf (prove_tautology_p spec_pieces !no_shadow !fuel f))));
      add ("entry=" ^ vd));
   fin ()
 
@@ -143,6 +153,11 @@ let handle line =
             | [a; b] -> (match resolvable (mkset (parse_clause a)) (mkset (parse_clause b)) with
                          | None -> "None"
                          | Some (r, rs) -> string_of_int (int_of_z r) ^ " " ^ show_set rs)
+            | _ -> raise Bad)
+  | "MC" -> (match String.split_on_char ' ' (String.trim arg) with
+            | [a; b] -> let l = parse_clause a and r = parse_clause b in
+                        (match s_merge (clause_core l) (nat_of_int (List.length l)) (clause_core r) with
+                         | Some c -> Digest.to_hex (Digest.string (show_core c)) | None -> "ERR")
             | _ -> raise Bad)
   | "S" -> (match String.split_on_char ' ' (String.trim arg) with
             | [a; x] -> show_clause (simplify_clause (parse_clause a) (z_of_int (int_of_string x)))
